@@ -214,8 +214,6 @@ func Sched(repo, outDir string) (*SchedResult, error) {
 			}
 			astutil.Apply(f, func(c *astutil.Cursor) bool {
 				switch x := c.Node().(type) {
-				case *ast.SelectStmt:
-					refuse(x, "select statement")
 				case *ast.CallExpr:
 					if id, ok := x.Fun.(*ast.Ident); ok && id.Name == "make" && len(x.Args) >= 1 {
 						if ct, ok := x.Args[0].(*ast.ChanType); ok {
@@ -225,8 +223,6 @@ func Sched(repo, outDir string) (*SchedResult, error) {
 							size := ast.Expr(&ast.BasicLit{Kind: token.INT, Value: "0"})
 							if len(x.Args) > 1 {
 								size = x.Args[1]
-							} else {
-								refuse(x, "unbuffered channel")
 							}
 							c.Replace(&ast.CallExpr{Fun: &ast.IndexExpr{X: vs("NewChan"), Index: ct.Value}, Args: []ast.Expr{size}})
 							changed = true
@@ -297,6 +293,64 @@ func Sched(repo, outDir string) (*SchedResult, error) {
 						changed = true
 						res.Points++
 					}
+				case *ast.SelectStmt:
+					// children are rewritten already: every comm statement is now c.Send(v), c.Recv1(), x := c.Recv1() or x, ok := c.Recv()
+					var cases []ast.Expr
+					var clauses []ast.Stmt
+					hasDefault := false
+					okAll := true
+					for _, st := range x.Body.List {
+						cc := st.(*ast.CommClause)
+						if cc.Comm == nil {
+							hasDefault = true
+							clauses = append(clauses, &ast.CaseClause{Body: cc.Body})
+							continue
+						}
+						var call *ast.CallExpr
+						switch cm := cc.Comm.(type) {
+						case *ast.ExprStmt:
+							call, _ = cm.X.(*ast.CallExpr)
+						case *ast.AssignStmt:
+							if len(cm.Rhs) == 1 {
+								call, _ = cm.Rhs[0].(*ast.CallExpr)
+							}
+						}
+						var sel *ast.SelectorExpr
+						if call != nil {
+							sel, _ = call.Fun.(*ast.SelectorExpr)
+						}
+						if sel == nil {
+							okAll = false
+							break
+						}
+						switch sel.Sel.Name {
+						case "Send":
+							cases = append(cases, method(sel.X, "SendCase"))
+							sel.Sel = ast.NewIdent("SendNow")
+						case "Recv1":
+							cases = append(cases, method(sel.X, "RecvCase"))
+							sel.Sel = ast.NewIdent("RecvNow1")
+						case "Recv":
+							cases = append(cases, method(sel.X, "RecvCase"))
+							sel.Sel = ast.NewIdent("RecvNow")
+						default:
+							okAll = false
+						}
+						idx := &ast.BasicLit{Kind: token.INT, Value: strconv.Itoa(len(cases) - 1)}
+						clauses = append(clauses, &ast.CaseClause{List: []ast.Expr{idx}, Body: append([]ast.Stmt{cc.Comm}, cc.Body...)})
+					}
+					if !okAll {
+						refuse(x, "select statement with a communication the rewriter does not know")
+						return true
+					}
+					hd := "false"
+					if hasDefault {
+						hd = "true"
+					}
+					args := append([]ast.Expr{ast.NewIdent(hd)}, cases...)
+					c.Replace(&ast.SwitchStmt{Tag: &ast.CallExpr{Fun: vs("Select"), Args: args}, Body: &ast.BlockStmt{List: clauses}})
+					changed = true
+					res.Points++
 				case *ast.SelectorExpr:
 					if id, ok := x.X.(*ast.Ident); ok && id.Name == "sync" {
 						if pn, ok := p.TypesInfo.Uses[id].(*types.PkgName); ok && pn.Imported().Path() == "sync" {
